@@ -70,7 +70,7 @@ Section C14_depth_only.
      its bestmove (this is what `go depth N` failed to do before the repair of D3) *)
   Theorem C14_depth_only : forall (s0 : St mv) (p : pos) (N : nat),
     running mv s0 = true -> (N <= 255)%nat ->
-    map (info_depth pos mv)
+    map (info_depth mv)
         (snd (search pos mv moves legal make in_check evalf is_cap is_promo cap_score mv_eqb key
                      halfmove repeated default_mv no_limits clock (fun _ => false) tt_on s0 p (Some N)))
     = map Some (seq 1 N) ++ [None].
